@@ -619,6 +619,8 @@ class Analyzer:
             v = V(ty=ty)
             if c.get("def") and ty.startswith("&") and c["def"] in (getattr(self.prog, "const_ranges", None) or {}):
                 v.ref_to = "const:" + c["def"]
+            if c.get("def") and c["def"] in (getattr(self.prog, "const_lens", None) or {}):
+                v.len = ("c", self.prog.const_lens[c["def"]])
             if "bytes" in c:
                 v.len = ("c", len(c["bytes"]))
             m = re.match(r"^&?(mut )?\[.*; (\d+)\]$", ty or "")
@@ -638,12 +640,11 @@ class Analyzer:
         if "(*" in key and self._unknown_deref(st, place):
             self.kill_aliased(st)
         st.kill_prefix(key)
-        if re.fullmatch(r"_\d+", key):
-            # aliases named after the old pointee of this local become unknown
-            pre = "(*%s)" % key
-            for k, ov in list(st.vals.items()):
-                if ov.ref_to is not None and (ov.ref_to == pre or ov.ref_to.startswith(pre + ".")) and k != key:
-                    st.vals[k] = V(ty=ov.ty, const=ov.const, sym=ov.sym, len=ov.len, is_mut=ov.is_mut)
+        # aliases named after the old pointee of this place (or of a place below it) become unknown
+        rx = re.compile(r"\(\*" + re.escape(key) + r"[).]")
+        for k, ov in list(st.vals.items()):
+            if ov.ref_to is not None and rx.search(ov.ref_to) and k != key:
+                st.vals[k] = V(ty=ov.ty, const=ov.const, sym=ov.sym, len=ov.len, is_mut=ov.is_mut)
         # invalidate values that referred to this key's old content via ref_to? (refs stay valid: they name the place)
         if whole_from is not None:
             st.copy_prefix(whole_from, key)
@@ -694,7 +695,7 @@ class Analyzer:
             v = self.eval_op(st, o, sid)
             if o["k"] in ("copy", "move"):
                 src = self.pkey(st, o["place"])
-                if v.ref_to is None and v.const is None and v.sym is None and (dty or "").startswith("&") and not o["place"]["p"]:
+                if v.ref_to is None and v.const is None and v.sym is None and (dty or "").startswith("&") and not INTERIOR_MUT.search(dty or ""):
                     # copy of a reference with an unknown target: both locals now name the same region
                     v = V(ty=dty, ref_to="(*%s)" % src, len=v.len, is_mut=(dty or "").startswith("&mut"))
                     st.vals[src] = v
